@@ -132,6 +132,11 @@ def line_loop_rules(ctx, rep, cl, require_readlines=False):
         rep.ob(cl + ".write-is-end-of-chain", fn.name, okc,
                "written text is %s; expected the result of the enabled stages applied one after another to the input line, nothing added or stripped" % show(arg)[:200], W(fn, writes[0].node),
                key=cl + ".write-is-end-of-chain|anonymize_io", nontrivial=(n <= 3))
+        called = [io.classify_call(e.a) for e in bp.effects if e.kind == "call" and io.classify_call(e.a)]
+        if okc:
+            rep.ob(cl + ".no-stage-result-dropped", fn.name, sorted(called) == sorted(names),
+                   "stages run on this path: %s, stages whose result reaches the written line: %s (a stage fed with the raw line instead of the previous stage's output discards the earlier stages)" % (called, names), W(fn, writes[0].node),
+                   key=cl + ".no-stage-result-dropped|anonymize_io", nontrivial=(n <= 3))
         if okc:
             order_ok = names == [s for s in STAGE_ORDER if s in names]
             rep.ob(cl + ".stage-order", fn.name, order_ok, "stages on this path run in order %s; fixed order is secrets, IPv6, IPv4, words, AS numbers" % names, w, key=cl + ".stage-order|anonymize_io", nontrivial=(n <= 3))
@@ -255,7 +260,7 @@ def c15(ctx, rep):
             final = stores[-1].c if stores else None
             is_set = final is not None and final != ("const", None)
             d = {}
-            for t, pol in path.atoms():
+            for t, pol, _n in path.conds:
                 roots = {s for s in subterms(t) if s in params} | {("param", s[2]) for s in subterms(t) if s[0] == "attr" and s[1] == SELF and ("param", s[2]) in params}
                 d[show(t)] = (pol, frozenset(roots))
             decisions.append((is_set, d))
